@@ -54,6 +54,9 @@ rt.GETATTR_HOOKS.append(_hook)
 
 # ---------------------------------------------------------------- TreeBuilder (mirrors the C accelerator)
 class ModelTreeBuilder:
+    def __init__(self, *a, **k):
+        pass
+
     """State machine of xml.etree.ElementTree.TreeBuilder as implemented in C (_elementtree.c):
     end() pops the current element without comparing its tag with the argument; close() returns the root even
     when elements are still open (the pure-Python TreeBuilder asserts both).  data() collects text; it is
@@ -115,7 +118,7 @@ def model_treebuilder_class(real):
     regex - instrumented as usual) on top of ModelTreeBuilder instead of the C base class"""
     tw = _TB_CACHE.get(real)
     if tw is None:
-        ns = {k: v for k, v in vars(real).items() if not k.startswith('__') or k in ('__doc__',)}
+        ns = {k: v for k, v in vars(real).items() if not k.startswith('__') or k in ('__doc__', '__init__')}
         tw = type(real.__name__, (ModelTreeBuilder,), ns)
         tw.__module__ = real.__module__
         tw.__qualname__ = real.__qualname__
@@ -128,9 +131,13 @@ def make_treebuilder(real_cls, symbolic):
     """TreeBuilder for harnesses: the real class natively, the model twin under symbolic execution"""
     if not symbolic:
         return real_cls()
+    import types
     tw = model_treebuilder_class(real_cls)
     tb = object.__new__(tw)
     tb._tb_init()
+    init = vars(real_cls).get('__init__')
+    if init is not None:
+        rt.call(types.MethodType(init, tb))       # the library's own __init__ (instrumented; super() -> the model)
     return tb
 
 
